@@ -140,6 +140,11 @@ fn ring_cap_scenario(inp: &Input) -> Option<Scenario> {
 }
 
 fn scenario(inp: &Input, rng: &mut Rng) -> Option<Scenario> {
+    scenario_at(inp, None, None, rng)
+}
+
+/// the clip number `m_fixed` of the cell of generator `idx_fixed` (random where `None`)
+fn scenario_at(inp: &Input, idx_fixed: Option<usize>, m_fixed: Option<usize>, rng: &mut Rng) -> Option<Scenario> {
     let n = inp.gens.len();
     if n < 2 {
         return None;
@@ -158,21 +163,26 @@ fn scenario(inp: &Input, rng: &mut Rng) -> Option<Scenario> {
     }
     let gens = vh::make_generators(&inp.gens, dimn);
     let boundary = vh::Boundary::cuboid(anchor, width, inp.periodic, dimn);
-    let idx = rng.below(n as u64) as usize;
+    let idx = idx_fixed.unwrap_or_else(|| rng.below(n as u64) as usize);
     let cands = vh::nn_visit(&inp.gens, idx, width, dimn, inp.periodic, 64);
     if cands.len() < 2 {
         return None;
     }
-    let m = rng.below((cands.len() as u64 - 1).min(14)) as usize; // neighbours used before the permuted clip
+    let m = match m_fixed {
+        Some(m) if m + 1 < cands.len() => m,
+        Some(_) => return None,
+        None => rng.below((cands.len() as u64 - 1).min(14)) as usize, // neighbours used before the permuted clip
+    };
     let loc = gens[idx].loc();
     let prefix: Vec<_> = cands[..=m].to_vec();
     let cell = vh::cell_build_with(loc, idx, &gens, prefix, &boundary);
     // the plane of the permuted clip: bisector towards one of the not yet used candidates
     let rest = &cands[m + 1..];
     // prefer a candidate whose bisector actually cuts the cell (random starting point among the next ones)
-    let start = rng.below(rest.len().min(4) as u64) as usize;
+    let start = if m_fixed.is_some() { 0 } else { rng.below(rest.len().min(4) as u64) as usize };
     let mut hs = None;
-    for k in 0..rest.len() {
+    // a fixed clip number means the builder's own next clip (cutting or not)
+    for k in 0..(if m_fixed.is_some() { 1 } else { rest.len() }) {
         let (j, shift) = rest[(start + k) % rest.len()];
         let ngb = gens[j].loc() + shift.unwrap_or(glam::DVec3::ZERO);
         if ngb == loc {
@@ -300,6 +310,37 @@ pub fn run(out: &mut Out, rng: &mut Rng, thorough: bool) {
                 if let Ok(Some(sc)) = sc {
                     // quick: cap exhaustive sets harder for scenarios with many removed vertices
                     emit_scenario(out, &inp.family, sid, &sc, &mut r2, max_ex, sampled);
+                    sid += 1;
+                }
+            }
+        }
+    }
+    // tiny periodic boxes of dyadic points (2 … 6 generators at odd multiples of 1/8): one cell has planes towards several
+    // images of the SAME generator and many decisions are exact ties - anything keyed by the neighbour's index alone confuses
+    // the images, and which one it sees first depends on the storage order
+    for round in 0..(if thorough { 8 } else { 3 }) {
+        use glam::DVec3;
+        let k = 2 + rng.below(5) as usize;
+        let mut gens: Vec<DVec3> = vec![];
+        if round == 0 {
+            // corpus entry (seeded change C18g): five generators on which six of the builder's 77 clips see two images of one
+            // generator in exact ties
+            gens = [[3., 5., 1.], [1., 5., 3.], [5., 1., 3.], [5., 3., 3.], [1., 7., 3.]].iter().map(|c| DVec3::from_array(*c) / 8.).collect();
+        }
+        while gens.len() < k {
+            let p = DVec3::new((2 * rng.below(4) + 1) as f64 / 8., (2 * rng.below(4) + 1) as f64 / 8., (2 * rng.below(4) + 1) as f64 / 8.);
+            if !gens.contains(&p) {
+                gens.push(p);
+            }
+        }
+        let inp = Input { family: "dyadic3p_unit_z".to_string(), dim: 3, periodic: true, anchor: DVec3::ZERO, width: DVec3::ONE, gens };
+        // every clip of every cell (the first 24 candidates), not a sample
+        for idx in 0..inp.gens.len() {
+            for m in 0..24 {
+                let mut r2 = rng.fork(23);
+                let sc = guarded(std::panic::AssertUnwindSafe(|| scenario_at(&inp, Some(idx), Some(m), &mut r2)));
+                if let Ok(Some(sc)) = sc {
+                    emit_scenario(out, &inp.family, sid, &sc, &mut r2, 3, if thorough { 48 } else { 24 });
                     sid += 1;
                 }
             }
